@@ -1609,7 +1609,7 @@ fn run_life_case(h: &H, out: &mut Out, idx: &str, kind: usize, seed: u64) {
         }};
     }
     check_served!("connect");
-    let mut steps: Vec<&str> = vec!["big_response", "zero_timeout", "short_timeout", "error_response", "ser_err", "ser_panic", "de_err", "notifies", "batch", "cancel", "forward", "resubscribe", "oversize"];
+    let mut steps: Vec<&str> = vec!["big_request", "big_response", "zero_timeout", "short_timeout", "error_response", "ser_err", "ser_panic", "de_err", "notifies", "batch", "cancel", "forward", "resubscribe", "oversize"];
     r.shuffle(&mut steps);
     for step in steps {
         match step {
@@ -1629,6 +1629,26 @@ fn run_life_case(h: &H, out: &mut Out, idx: &str, kind: usize, seed: u64) {
                         s.send(Cmd::Send(vec![response_v(f.h.id, false, c as i64, c as i64, variant_of(&f))]));
                     } else {
                         s.req_stash.push(f);
+                    }
+                }
+            }
+            "big_request" => {
+                // requests whose frame is exactly 8191 / 8192 / 8193 / 16384 / 65536 bytes (the write buffers are 8 KiB)
+                for total in [8191usize, 8192, 8193, 16_384, 65_536] {
+                    let c = fresh(&mut next_c);
+                    let path = vpath(c, 12);
+                    let body = vec![b' '; total - 48 - path.len()];
+                    let tx = s.ev_tx.clone();
+                    match s.cl.clone() {
+                        Cl::B(cl) => { std::thread::spawn(move || { let r = cl.call_with_formats(&path, 1, Some(&body), 0).and_then(msg_to_value); let _ = tx.send(Event::Res(c, r)); }); }
+                        Cl::A(cl) => { h.rt.spawn(async move { let r = cl.call_with_formats(&path, 1, Some(&body), 0).await.and_then(msg_to_value); let _ = tx.send(Event::Res(c, r)); }); }
+                        Cl::W(cl) => { h.rt.spawn(async move { let r = cl.call_with_formats(&path, 1, Some(&body), 0).await.and_then(msg_to_value); let _ = tx.send(Event::Res(c, r)); }); }
+                    }
+                    let got = serve_until(&mut s, c, 0, call_watchdog());
+                    if own(&got, c as i64) != "own" {
+                        out.oracle_fail(&format!("mux.{}.life.big_request", kname), &format!("a call whose request frame is {} bytes returned {}", total, own(&got, c as i64)), &ops);
+                        if own(&got, c as i64) == "HANG" { saw_hang(); }
+                        verdict = "bad".into();
                     }
                 }
             }
@@ -2918,6 +2938,57 @@ fn run_batchtmo_case(h: &H, out: &mut Out, idx: &str, kind: usize, n: usize) {
     s.send(Cmd::Close);
 }
 
+/// Two knobs at once (blocking client): a short write timeout is configured and the calls carry a generous
+/// per-call timeout; the peer answers later than the write timeout is long. The write timeout is about
+/// writes only: the calls get their answers.
+fn run_knobs_case(h: &H, out: &mut Out, idx: &str, n: usize) {
+    let op = format!("knobs {} 0 {}", idx, n);
+    out.begin(&op);
+    let ops = [op.clone()];
+    let Ok(mut s) = h.open(0) else { return };
+    if let Cl::B(cl) = &s.cl {
+        let _ = cl.set_write_timeout(Some(Duration::from_millis(100)));
+    }
+    s.send(Cmd::AutoRead);
+    let _ = s.srv_done();
+    for c in 0..n {
+        s.call_v(h, c, c * 2, Some(CALL_TIMEOUT));
+    }
+    // collect the requests, answer them 300 ms later
+    let t0 = Instant::now();
+    let mut reqs: Vec<RawFrame> = Vec::new();
+    while reqs.len() < n && t0.elapsed() < call_watchdog() {
+        match s.ev.recv_timeout(Duration::from_millis(20)) {
+            Ok(Event::Req(f)) => reqs.push(f),
+            Ok(Event::Res(x, r)) => s.stash.push((x, r)),
+            _ => {}
+        }
+    }
+    std::thread::sleep(Duration::from_millis(300));
+    let answers: Vec<Vec<u8>> = reqs.iter().map(|f| { let c = caller_of(f).unwrap_or(0); response_v(f.h.id, false, c as i64, c as i64, variant_of(f)) }).collect();
+    s.send(Cmd::Send(answers));
+    let mut verdict = "ok";
+    for c in 0..n {
+        let r = s.res_of(c, call_watchdog());
+        if own(&r, c as i64) != "own" {
+            out.oracle_fail("deadconn.blocking.write_timeout_affects_wait", &format!("write timeout 100 ms configured, per-call timeout 9 s, the peer answered after 300 ms: call {} returned {}", c, own(&r, c as i64)), &ops);
+            verdict = "bad";
+        }
+    }
+    // a zero write timeout is rejected by the OS (InvalidInput), `None` switches it off: neither breaks the client
+    if let Cl::B(cl) = &s.cl {
+        let _ = cl.set_write_timeout(Some(Duration::ZERO));
+        let _ = cl.set_write_timeout(None);
+    }
+    s.call_v(h, n, 1, None);
+    if own(&serve_until(&mut s, n, 0, call_watchdog()), n as i64) != "own" {
+        out.oracle_fail("deadconn.blocking.later_call_after_knobs", "a call after reconfiguring the write timeout was not served", &ops);
+        verdict = "bad";
+    }
+    out.case(&op, &format!("{} {}", idx, verdict), true);
+    s.send(Cmd::Close);
+}
+
 /// Seed C06-T's window: a call with a per-call timeout whose request is larger than the socket buffers,
 /// while the peer does not read for longer than that timeout; the peer then reads and answers. The call
 /// itself may return its answer or a timeout; the small call in flight before it and a later call must get
@@ -3710,6 +3781,7 @@ fn main() {
                     }
                 }
                 Some("fwdres") => run_fwd_residue_case(&h, &mut out, &idx),
+                Some("knobs") if w.len() >= 4 => run_knobs_case(&h, &mut out, &idx, w[3].parse().unwrap()),
                 Some("batchtmo") if w.len() >= 4 => run_batchtmo_case(&h, &mut out, &idx, w[2].parse().unwrap(), w[3].parse().unwrap()),
                 Some("slowpeer") if w.len() >= 4 => run_slowpeer_case(&h, &mut out, &idx, w[2].parse().unwrap(), w[3].parse().unwrap()),
                 Some("mlates") if w.len() >= 5 => run_lates_case_in(&h, &mut out, "mux", &idx, w[2].parse().unwrap(), w[3].parse().unwrap(), w[4]),
@@ -3850,6 +3922,9 @@ fn main() {
         // a batch with a timeout and more entries than workers; a slow large write under a per-call timeout
         for kind in 0..3 {
             if out.oracle_failures >= 12 { break; }
+            if kind == 0 {
+                run_knobs_case(&h, &mut out, "kn0", 3);
+            }
             run_batchtmo_case(&h, &mut out, &format!("bt{kind}"), kind, 100);
             run_slowpeer_case(&h, &mut out, &format!("sp{kind}"), kind, 12);
         }
